@@ -136,7 +136,9 @@ type OracleC03 struct {
 	applied map[string]bool
 }
 
-func NewOracleC03() *OracleC03 { return &OracleC03{nonce: map[string]int64{}, applied: map[string]bool{}} }
+func NewOracleC03() *OracleC03 {
+	return &OracleC03{nonce: map[string]int64{}, applied: map[string]bool{}}
+}
 
 func (c *OracleC03) AfterTxn(w *World, bc *BlockCtx, o *Outcome) {
 	t := o.Txn
@@ -168,7 +170,6 @@ func (c *OracleC03) AfterTxn(w *World, bc *BlockCtx, o *Outcome) {
 
 func (c *OracleC03) AfterBlock(w *World, bc *BlockCtx) {}
 
-
 // ---- C05: no overdraw / wrap ----------------------------------------------------------------------
 
 type OracleC05 struct{}
@@ -196,7 +197,8 @@ func (OracleC05) AfterTxn(w *World, bc *BlockCtx, o *Outcome) {
 	}
 	accts, _ := w.SplitChanges(o.Changes())
 	for _, a := range accts {
-		if a.New != nil && new(big.Int).SetUint64(uint64(a.New.Balance)).Cmp(supply) > 0 {
+		// (not meaningful once the run has poked a balance near 2^64 into the trie itself)
+		if !w.Poked && a.New != nil && new(big.Int).SetUint64(uint64(a.New.Balance)).Cmp(supply) > 0 {
 			w.Tr.Violate(&sim.Violation{Prop: "C05", Oracle: "wrap", Sig: fmt.Sprintf("C05/balance-exceeds-supply/type%d/%s", o.Txn.TransactionType, o.Txn.FunctionName),
 				Detail: fmt.Sprintf("account %s balance %d exceeds the total supply (wrapped)", a.ID, uint64(a.New.Balance))})
 		}
